@@ -70,6 +70,8 @@ pub enum Piece {
     /// computed subscripts: `x_{a[i]}`, `x_{len(a) - 1}`, `x_{i * 2}` (an array access, a call and a
     /// product as the index of an indexed name)
     Subscript { idx: Vec<u8>, rel: Rel },
+    /// an array of strings (with escapes) that is only measured: `x <= len(s)`
+    Strings { items: Vec<u8>, rel: Rel },
 }
 
 #[derive(Clone, Debug, Serialize, Deserialize)]
@@ -192,6 +194,7 @@ impl DataProg {
                     Piece::Sets { .. } => "set-functions",
                     Piece::Triangular { .. } => "empty-and-growing-aggregations",
                     Piece::Subscript { .. } => "computed-subscripts",
+                    Piece::Strings { .. } => "string-array",
                 }
                 .to_string(),
             );
@@ -222,10 +225,20 @@ impl Piece {
                     3 => (format!("a{k}[i] * 2"), Box::new(|i| arr[i] * 2.0)),
                     _ => (format!("(a{k}[i] + i)"), Box::new(|i| arr[i] + i as f64)),
                 };
-                let terms: Vec<(f64, String)> = idx.iter().map(|&i| (value(i), format!("x{k}_{i}"))).collect();
+                let _ = &value;
+                // the coefficient is written with the same operands in the same order as the driven
+                // text, so that rooc folds it with the same roundings
+                let literal = |i: usize| match coef % 5 {
+                    0 => num(arr[i]),
+                    1 => i.to_string(),
+                    2 => "3".to_string(),
+                    3 => format!("{} * 2", num(arr[i])),
+                    _ => format!("({} + {i})", num(arr[i])),
+                };
+                let terms: Vec<String> = idx.iter().map(|&i| format!("{} * x{k}_{i}", literal(i))).collect();
                 d.wheres.push(format!("let a{k} = {}", arr_text(arr)));
                 d.constraints.push(format!("sum(i in {range}) {{ {coef_text} * x{k}_i }} {} {}", rel.text(), num(*rhs)));
-                u.constraints.push(format!("{} {} {}", lin(&terms), rel.text(), num(*rhs)));
+                u.constraints.push(format!("{} {} {}", if terms.is_empty() { "0".to_string() } else { terms.join(" + ") }, rel.text(), num(*rhs)));
                 if *objective > 0 && d.objective.is_none() {
                     let kw = if *objective == 1 { "min" } else { "max" };
                     d.objective = Some(format!("{kw} sum(i in 0..len(a{k})) {{ a{k}[i] * x{k}_i }} + 1"));
@@ -415,8 +428,8 @@ impl Piece {
                 d.wheres.push(format!("let a{k} = {}", arr_text(a)));
                 d.wheres.push(format!("let b{k} = {}", arr_text(b)));
                 d.constraints.push(format!("sum((p, q) in zip(a{k}, b{k})) {{ p * q * z{k} }} {} {}", rel.text(), num(*rhs)));
-                let terms: Vec<(f64, String)> = a.iter().zip(b).map(|(p, q)| (p * q, format!("z{k}"))).collect();
-                u.constraints.push(format!("{} {} {}", lin(&terms), rel.text(), num(*rhs)));
+                let terms: Vec<String> = a.iter().zip(b).map(|(p, q)| format!("{} * {} * z{k}", num(*p), num(*q))).collect();
+                u.constraints.push(format!("{} {} {}", if terms.is_empty() { "0".to_string() } else { terms.join(" + ") }, rel.text(), num(*rhs)));
                 d.decls.push(format!("z{k} as Real(-9, 9)"));
                 u.decls.push(format!("z{k} as Real(-9, 9)"));
             }
@@ -441,6 +454,16 @@ impl Piece {
                 for i in 0..n {
                     u.decls.push(format!("x{k}_{i} as Real(-4, 6)"));
                 }
+            }
+            Piece::Strings { items, rel } => {
+                const POOL: [&str; 6] = ["\"plain\"", "\"a\\\"b\"", "\"c\\\\d\"", "\"e\\nf\"", "\"\"", "\"tab\\t\\u0041\""];
+                let lits: Vec<&str> = items.iter().map(|i| POOL[*i as usize % POOL.len()]).collect();
+                d.wheres.push(format!("let s{k} = [{}]", lits.join(", ")));
+                u.wheres.push(format!("let s{k} = [{}]", lits.join(", ")));
+                d.constraints.push(format!("q{k}: w{k} {} len(s{k})", rel.text()));
+                u.constraints.push(format!("q{k}: w{k} {} {}", rel.text(), lits.len()));
+                d.decls.push(format!("w{k} as Real(-4, 6)"));
+                u.decls.push(format!("w{k} as Real(-4, 6)"));
             }
             Piece::Subscript { idx, rel } => {
                 let n = idx.len();
@@ -504,6 +527,17 @@ fn arr(ints_only: bool) -> BoxedStrategy<Vec<f64>> {
     }
 }
 
+/// arrays that may hold magnitudes a printer would switch to an exponent for; only for pieces whose
+/// unrolled twin writes the operands literally (no arithmetic on the harness side, so both texts
+/// make rooc do the same roundings)
+fn arr_wide() -> BoxedStrategy<Vec<f64>> {
+    prop_oneof![
+        6 => arr(false),
+        1 => proptest::collection::vec(prop_oneof![Just(0.00000049), Just(0.000000001), Just(123456789.125), Just(2500000000000000.5), Just(0.1), Just(1.5)], 1..=3),
+    ]
+    .boxed()
+}
+
 fn rel() -> BoxedStrategy<Rel> {
     prop_oneof![Just(Rel::Le), Just(Rel::Ge), Just(Rel::Eq)].boxed()
 }
@@ -530,11 +564,11 @@ pub fn piece() -> BoxedStrategy<Piece> {
         Just(vec!["n1".to_string(), "n2".to_string(), "n3".to_string()]),
     ];
     prop_oneof![
-        4 => (arr(false), 0usize..4, 0usize..6, any::<bool>(), any::<bool>(), 0u8..5, rel(), rhs(), dom(), 0u8..3).prop_map(
+        4 => (arr_wide(), 0usize..4, 0usize..6, any::<bool>(), any::<bool>(), 0u8..5, rel(), rhs(), dom(), 0u8..3).prop_map(
             |(arr, from, to, inclusive, use_len, coef, rel, rhs, dom, objective)| Piece::SumRange { arr, from, to, inclusive, use_len, coef, rel, rhs, dom, objective }
         ),
-        3 => (arr(false), rel(), any::<bool>(), any::<bool>(), dom()).prop_map(|(arr, rel, named, shift, dom)| Piece::Family { arr, rel, named, shift, dom }),
-        2 => (arr(false), rel(), rhs(), dom()).prop_map(|(arr, rel, rhs, dom)| Piece::Enumerate { arr, rel, rhs, dom }),
+        3 => (arr_wide(), rel(), any::<bool>(), any::<bool>(), dom()).prop_map(|(arr, rel, named, shift, dom)| Piece::Family { arr, rel, named, shift, dom }),
+        2 => (arr_wide(), rel(), rhs(), dom()).prop_map(|(arr, rel, rhs, dom)| Piece::Enumerate { arr, rel, rhs, dom }),
         3 => ((1usize..=3, 1usize..=3).prop_flat_map(|(r, c)| proptest::collection::vec(proptest::collection::vec(0i64..=9, c), r)), any::<bool>(), any::<bool>(), rel(), rhs(), dom())
             .prop_map(|(m, dependent, family, rel, rhs, dom)| Piece::Nested { m, dependent, family, rel, rhs, dom }),
         3 => (node_names, proptest::collection::vec((0usize..4, 0usize..4, proptest::option::of((1i32..=9).prop_map(|v| v as f64 / 2.0))), 0..=5), 0u8..5, rhs())
@@ -543,6 +577,7 @@ pub fn piece() -> BoxedStrategy<Piece> {
         1 => (arr(false), arr(false), rel(), rhs()).prop_map(|(a, b, rel, rhs)| Piece::Zip { a, b, rel, rhs }),
         2 => (arr(false), any::<bool>(), rel(), rhs()).prop_map(|(arr, inclusive, rel, rhs)| Piece::Triangular { arr, inclusive, rel, rhs }),
         2 => (proptest::collection::vec(0u8..6, 1..=4), rel()).prop_map(|(idx, rel)| Piece::Subscript { idx, rel }),
+        1 => (proptest::collection::vec(0u8..6, 1..=3), rel()).prop_map(|(items, rel)| Piece::Strings { items, rel }),
         2 => (proptest::collection::vec(0u8..10, 0..=4), proptest::collection::vec(0u8..10, 0..=4), 0u8..3, rel(), rhs()).prop_map(|(mut s1, mut s2, op, rel, rhs)| {
             s1.dedup();
             s2.dedup();
